@@ -5,7 +5,9 @@
 (* One action per critical section of server.go / absnfs.go / operations.go *)
 (*   acceptLoop            : AccCheck (ctx.Done at loop top), AccTake       *)
 (*                           (Accept returns a connection), AccErr (Accept  *)
-(*                           fails on a closed listener), Register / Reject *)
+(*                           fails on a closed listener), AclReject (the    *)
+(*                           address is not in AllowedIPs: closed, never    *)
+(*                           counted), Register / Reject                    *)
 (*                           (registerConnection under connMutex)           *)
 (*   handleConnectionLoop  : Serve (one request answered, activity stamped),*)
 (*                           or, for requests that take time, ServeBegin    *)
@@ -37,7 +39,8 @@ CONSTANTS Conns,      \* connection ids
           Nfs,        \* ids of AbsfsNFS.Close / Unexport calls
           Exported,   \* TRUE: the server was created by Export() (Close / Unexport stop it)
           Slow,       \* connections whose requests take time (ServeBegin / ServeEnd instead of the atomic Serve)
-          Mutant      \* "none" | "DoubleUnreg" | "NoLimit" | "StopNoWait" | "CloseNoRelease" | "ReleaseBeforePoolStop" | "NoRefreshAtRead"
+          Denied,     \* connections from addresses outside AllowedIPs
+          Mutant      \* "none" | "DoubleUnreg" | "NoLimit" | "StopNoWait" | "CloseNoRelease" | "ReleaseBeforePoolStop" | "NoRefreshAtRead" | "RegisterBeforeAcl"
 
 VARIABLES lst,      \* listener: "none" | "open" | "closed"
           ctxDone,  \* server context cancelled
@@ -106,9 +109,20 @@ AccErr ==
 
 AtLimit == Max > 0 /\ count >= Max /\ Mutant # "NoLimit"
 
+\* isIPAllowed fails: the connection is closed; it has not been counted (the address test comes before
+\* registerConnection).  Mutant RegisterBeforeAcl: registerConnection comes first and this branch does not undo it.
+AclReject(c) ==
+  /\ acc = "has" /\ accHas = {c} /\ c \in Denied
+  /\ IF Mutant = "RegisterBeforeAcl" /\ ~AtLimit
+     THEN /\ active' = active \cup {c} /\ count' = count + 1 /\ regN' = [regN EXCEPT ![c] = @ + 1]
+     ELSE UNCHANGED <<active, count, regN>>
+  /\ conn' = [conn EXCEPT ![c].ph = "rejected", ![c].sock = "closed"]
+  /\ acc' = "top" /\ accHas' = {}
+  /\ UNCHANGED <<lst, ctxDone, idleG, reap, stop, nfs, exportSrv, handles, caches, unregN>>
+
 \* registerConnection under connMutex: counted, goroutine started (wg.Add before go)
 Register(c) ==
-  /\ acc = "has" /\ accHas = {c} /\ ~AtLimit
+  /\ acc = "has" /\ accHas = {c} /\ ~AtLimit /\ c \notin Denied
   /\ active' = active \cup {c} /\ count' = count + 1
   /\ conn' = [conn EXCEPT ![c].ph = "serving", ![c].age = 0, ![c].gor = TRUE]
   /\ regN' = [regN EXCEPT ![c] = @ + 1]
@@ -117,7 +131,7 @@ Register(c) ==
 
 \* at the limit: the connection is closed and never counted
 Reject(c) ==
-  /\ acc = "has" /\ accHas = {c} /\ AtLimit
+  /\ acc = "has" /\ accHas = {c} /\ AtLimit /\ c \notin Denied
   /\ conn' = [conn EXCEPT ![c].ph = "rejected", ![c].sock = "closed"]
   /\ acc' = "top" /\ accHas' = {}
   /\ UNCHANGED <<lst, ctxDone, idleG, reap, active, count, stop, nfs, exportSrv, handles, caches, regN, unregN>>
@@ -296,7 +310,7 @@ EnvNext == \/ Listen \/ Tick
            \/ \E k \in Stops : StopCancel(k)
            \/ \E j \in Nfs : NfsBegin(j, "close") \/ NfsBegin(j, "unexport")
 ServerNext == \/ AccCheck \/ AccErr \/ ReapPick \/ IdleExit
-              \/ \E c \in Conns : AccTake(c) \/ Register(c) \/ Reject(c) \/ ServeEnd(c) \/ ConnNotice(c) \/ ConnExit(c) \/ ReapClose(c)
+              \/ \E c \in Conns : AccTake(c) \/ AclReject(c) \/ Register(c) \/ Reject(c) \/ ServeEnd(c) \/ ConnNotice(c) \/ ConnExit(c) \/ ReapClose(c)
               \/ \E k \in Stops : StopCloseListener(k) \/ StopCollect(k) \/ StopWait(k) \/ StopReturn(k)
                                   \/ \E c \in Conns : StopCloseOne(k, c)
               \/ \E j \in Nfs : NfsStopped(j) \/ NfsPoolStop(j) \/ NfsRelease(j) \/ NfsClear(j)
@@ -306,7 +320,7 @@ Spec == Init /\ [][Next]_vars
 \* connection that keeps being sent requests still notices)
 FairSpec == /\ Spec
             /\ WF_vars(AccCheck) /\ WF_vars(AccErr) /\ WF_vars(ReapPick) /\ WF_vars(IdleExit)
-            /\ \A c \in Conns : WF_vars(Register(c) \/ Reject(c)) /\ WF_vars(ServeEnd(c)) /\ SF_vars(ConnNotice(c)) /\ WF_vars(ConnExit(c)) /\ WF_vars(ReapClose(c))
+            /\ \A c \in Conns : WF_vars(Register(c) \/ Reject(c) \/ AclReject(c)) /\ WF_vars(ServeEnd(c)) /\ SF_vars(ConnNotice(c)) /\ WF_vars(ConnExit(c)) /\ WF_vars(ReapClose(c))
             /\ \A k \in Stops : WF_vars(StopCloseListener(k) \/ StopCollect(k) \/ StopWait(k) \/ StopReturn(k) \/ \E c \in Conns : StopCloseOne(k, c))
 
 -----------------------------------------------------------------------------
@@ -319,6 +333,8 @@ TypeOK == /\ lst \in {"none", "open", "closed"} /\ acc \in {"none", "top", "acce
 CountMatches == count = Cardinality(active)
 CountedOnce  == \A c \in Conns : regN[c] <= 1 /\ unregN[c] <= regN[c]
 GoneUncounted == \A c \in Conns : conn[c].ph = "gone" => c \notin active
+\* ... and a connection that was turned away (at the limit or by the address filter) is not counted at all
+RefusedUncounted == \A c \in Conns : conn[c].ph = "rejected" => c \notin active
 
 \* simultaneously served connections never exceed MaxConnections
 \* (a connection whose request is executing is being served, whatever has happened to its socket; while the server
